@@ -271,3 +271,34 @@ def run(ctx):
     ctx.check("C16.R6", "true division `/` is applied only to sub-second fields (< 10**6, exact in a float)", not bad, bad[0][0].where(bad[0][1]) if bad else lwm.relpath, f"{bad[0][0].qualname}: {norm(bad[0][1])}" if bad else "", "a true division of a large quantity (timedelta or total microseconds) passes through a 53-bit float: instants far from 1970 are stored off by a microsecond or more")
 
     ctx.borrow("C10", {"C10.R2": "C16.R7"}, "logical values inside unions (and every value under validator=True) are written only if validate accepts them: a verdict other than the type validator's on the prepared value narrows the domain that can be stored", only=lambda o: "_validate:" in o.get("where", "") or o.get("instance", "").startswith("_validate"))
+
+    # ---- R8 the preparers are total: a value that is not of the logical type's Python class passes through ---------------
+    ctx.rule("C16.R8", "every preparer returns a value of another Python class than its logical type unchanged and raises nothing for it (validate and write_union call the preparer of every candidate branch on whatever datum they have)", floor=8)
+    from sa.pathsum import summaries as _summ8
+
+    n8 = 0
+    for key in sorted(LW.keys()):
+        for f8 in LW.funcs(key):
+            if len(f8.pos_params) < 1:
+                continue
+            D8 = f8.pos_params[0]
+            n8 += 1
+            bad8 = []
+            for s8 in _summ8(cfg_of(f8), max_paths=600):
+                neg = [t for t in s8.facts if t.startswith(f"not isinstance({D8}, ") and not any(b in t for b in ("numbers.", "int)", "int,", "bool", "str)", "float"))]
+                if not neg:
+                    continue
+                if any(t.startswith(f"isinstance({D8}, ") for t in s8.facts):
+                    continue  # another class the preparer converts on purpose (an ISO string for a date, ..)
+                if s8.kind == "raise":
+                    bad8.append((s8, f"raises `{s8.text[:60]}`"))
+                elif s8.kind == "return" and s8.text != D8:
+                    bad8.append((s8, f"returns `{s8.text[:60]}`"))
+            if bad8:
+                s8, what = bad8[0]
+                ctx.violation("C16.R8", f"{f8.qualname}: a value that is not of the logical type's class is handed back unchanged", f8.where(s8.node), f"{f8.qualname}: {what} under {sorted(t for t in s8.facts if D8 in t)[:3]}", "validate and the union writer try the preparer of every candidate branch on the datum before the per-type validator decides: a preparer that raises (or converts) for a value of another class turns `this branch does not match` into an exception, so a datum that conforms to a later branch of the union cannot be validated or written")
+            else:
+                ctx.holds("C16.R8", f"{f8.qualname}: values of other classes pass through", f8.where())
+    if n8 < 8:
+        ctx.unrecognised("C16.R8", "preparers", lwm.relpath, f"only {n8} preparers found in LOGICAL_WRITERS")
+
